@@ -524,10 +524,10 @@ impl Router {
                     // reset the group cursor
                     if let Some(group_name) = &request.group {
                         // TODO: Test this more
-                        self.shared_subscriptions
-                            .get_mut(group_name)
-                            .expect("group must exists")
-                            .cursor = *cursor;
+                        // the group is already gone when this was its last member
+                        if let Some(group) = self.shared_subscriptions.get_mut(group_name) {
+                            group.cursor = *cursor;
+                        }
                     }
                 }
             }
